@@ -14,6 +14,7 @@ import Driver.MsgWinDrv
 import Driver.FfiDrv
 import Driver.MemLruDrv
 import Driver.StoreLimDrv
+import Driver.IdentDrv
 
 def main (args : List String) : IO UInt32 := do
   match args with
@@ -33,4 +34,5 @@ def main (args : List String) : IO UInt32 := do
   | ["ffi"] => Driver.FfiDrv.main; return 0
   | ["memlru"] => Driver.MemLruDrv.main; return 0
   | ["storel"] => Driver.StoreLimDrv.main; return 0
+  | ["ident"] => Driver.IdentDrv.main; return 0
   | _ => IO.eprintln "usage: mdkdrv store < ops"; return 2
